@@ -50,6 +50,12 @@ def MainPollPeriod(log, mods, t_end):
         gaps = [b - a for a, b in zip(starts, starts[1:])] + [t_end - starts[-1]]
         if max(gaps) > m.current_interval_max + sweep + 1e-9:
             return False
+        # interval changes / fast polling take effect from the next wake-up: once the last scripted change has settled, the
+        # module is polled at its current poll interval (not at a stale one)
+        late = [s for s in starts if s >= m.settled_at]
+        lgaps = [b - a for a, b in zip(late, late[1:])] + ([t_end - late[-1]] if late else [])
+        if late and max(lgaps) > m.pollinterval + sweep + 1e-9:
+            return False
     return True
 
 
